@@ -6,6 +6,7 @@ import Matreex.Lemmas.Bridge
 import Matreex.Lemmas.Matrix
 import Matreex.Props.C04
 import Matreex.Gen.OrderDispatch
+import Matreex.Lemmas.BridgeKernels
 
 namespace Matreex.C10
 open Matreex
@@ -350,5 +351,14 @@ example : (ex23.swapRows 4 1 1).map (fun p => p.2.data.toList) = .ok [1, 2, 3, 4
 example : (ex23.swapRows 4 0 1).map (fun p => p.2.data.toList) = .ok [4, 5, 6, 1, 2, 3] := by rfl
 example : (ex23.swapCols 4 0 2).map (fun p => p.2.data.toList) = .ok [3, 2, 1, 6, 5, 4] := by rfl
 example : (ex23.swapCols 4 0 3).map (fun p => p.1) = .ok (.error .indexOutOfBounds) := by rfl
+
+/-- the vector-swap functions the theorems of this file are about ARE the source's kernels: the
+functions regenerated from `src/swap.rs` on every run (`Gen/Kernels.lean`: guards, early exit,
+offset arithmetic, the loop, the `ptr::swap` / `ptr::swap_nonoverlapping` calls) return the same
+result and the same buffer, with the same faults, as `swapMajor` / `swapMinor` -/
+theorem swap_kernels_are_the_source (es : Nat) (m : Matrix α) (a b : Nat) :
+    Gen.Matrix.swap_major_axis_vectors es m.hdr m.data a b = BridgeKernels.view (m.swapMajor es a b) ∧
+    Gen.Matrix.swap_minor_axis_vectors es m.hdr m.data a b = BridgeKernels.view (m.swapMinor a b) :=
+  ⟨BridgeKernels.swap_major_kernel es m a b, BridgeKernels.swap_minor_kernel es m a b⟩
 
 end Matreex.C10
